@@ -109,7 +109,7 @@ Proof. intros L A. rewrite decode_ascii by exact L. cbn [fst]. destruct (ascii_c
 Lemma nonword_start l R : lex_ok l = true -> is_word l = false ->
   match render l ++ R with [] => True | _ => is_ident_start (fst (decode_rune (render l ++ R))) = false end.
 Proof.
-  intros OK NW. destruct l as [e| | |ip fp ex|rs|ds|rs|op cl items|op cl items|items|tag body];
+  intros OK NW. destruct l as [e| | |ip fp ex|rs|ds|rs|op cl items|op cl items|items|tag body|trs];
     cbn [is_word] in NW; try discriminate NW; cbn [lex_ok render] in *.
   - apply existsb_exists in OK. destruct OK as (e' & IN & EQ). apply op_eqb_eq in EQ. subst e'.
     pose proof ops_first_byte as F. rewrite forallb_forall in F. specialize (F _ IN).
@@ -130,6 +130,7 @@ Proof.
     rewrite decode_encode by assumption. cbn [fst]. apply negb_true_iff. assumption.
   - cbn [app]. apply ascii_nonstart; [lia | reflexivity].
   - unfold dollar_tag. cbn [app]. apply ascii_nonstart; [lia | reflexivity].
+  - cbn [app]. apply ascii_nonstart; [lia | reflexivity].
 Qed.
 
 (* ---------------------------------------------------------------------------------------------- *)
@@ -167,7 +168,7 @@ Proof.
   - cbn [items_ok] in OKD. apply andb_prop in OKD. destruct OKD as [OKD OK2]. apply andb_prop in OKD.
     destruct OKD as [LOK LFO]. unfold follow_ok in LFO. apply andb_prop in LFO. destruct LFO as [LFO _].
     change (render_items (ILex l :: rest2)) with (render l ++ render_items rest2).
-    destruct l as [e| | |ip fp ex|rs2|ds|rs2|op cl items|op cl items|items|tag body];
+    destruct l as [e| | |ip fp ex|rs2|ds|rs2|op cl items|op cl items|items|tag body|trs];
       try (rewrite lookahead_nonstart by (apply nonword_start; [exact LOK | reflexivity]); reflexivity).
     cbn [render lex_ok class_follow] in *. rewrite lookahead_word by assumption.
     destruct (assoc_b compound_keywords _); [| reflexivity].
